@@ -125,6 +125,43 @@ theorem C03_foreign_leaf_entry (red detail : Bool) (id : Ident) (m : Str) (o wd 
   subst hen
   rw [C06_redactable_flag]; rfl
 
+/-! ### the whole rendering: what was written from an unsafe source is enclosed, and gone after Redact() -/
+
+/-- In the model every byte written from an unsafe source carries the ghost label `Tok.u`: the
+    arguments of `Printf`/`Print` that are not `Safe` (unsafe mode of the redact buffer), everything a
+    non-SafeFormatter layer writes (`POp.plain`: hints, details, texts of foreign errors, prefixes
+    extracted from foreign wrappers), and what is between markers in a stored redactable string.
+    `LW` demands that a labelled byte occurs only between markers.  So: in the redactable rendering
+    (`%v`, `%s`, `%+v`) of EVERY well-formed error — any depth, hidden and multi-cause parts
+    included, any string contents — every unsafe byte is enclosed. -/
+theorem C03_unsafe_enclosed (e : Err) (h : WFE e) (detail : Bool) : LW (renderT true detail e) :=
+  renderT_LW detail e h
+
+/-- a labelled byte at the outside is impossible in a well-formed string -/
+theorem C03_label_means_inside (a b : Toks) (c : UInt8) (st : Bool) (h : lw false (a ++ Tok.u c :: b) = some st) :
+    lw false a = some true := by
+  rw [lw_append] at h
+  cases ha : lw false a with
+  | none => rw [ha] at h; simp at h
+  | some s => rw [ha] at h; cases s <;> simp [lw] at h ⊢
+
+/-- and after `Redact()` no unsafe byte is left at all: in `redact.Sprintf("%+v", err).Redact()`
+    (what the Sentry report, the barrier details and `%v` of a redacted log line are made of) -/
+theorem C03_redacted_rendering_has_no_unsafe_byte (e : Err) (h : WFE e) (detail : Bool) :
+    ∀ x ∈ redactT (assembleT [.preT (renderT true detail e)]), ∀ c, x ≠ Tok.u c :=
+  noU_redactT _ (C06_wellformed_sprintf e h detail)
+
+/-- likewise for any message assembled by `redact.Sprintf` (the stored messages, prefixes and tags,
+    whose `Redact()` forms are the safe details) -/
+theorem C03_redacted_sprintf_has_no_unsafe_byte (segs : List SegT) (hs : ∀ g ∈ segs, g.ok) :
+    ∀ x ∈ redactT (assembleT segs), ∀ c, x ≠ Tok.u c :=
+  noU_redactT _ (LW_assembleT segs hs)
+
+/-- and for an escaped foreign text -/
+theorem C03_redacted_escapeBytes_has_no_unsafe_byte (s : Str) :
+    ∀ x ∈ redactT (escapeBytesT s), ∀ c, x ≠ Tok.u c :=
+  noU_redactT _ (LW_escapeBytesT s)
+
 /-! ### Redact() and the outside view -/
 
 /-- Redact keeps exactly the bytes that are outside the markers -/
